@@ -715,7 +715,7 @@ dt_io_strpdtdur(struct __strpdtdur_st_s *st, const char *str)
 		switch (*sp++) {
 		case '\0':
 			res = -1;
-			ep = sp;
+			ep = --sp;
 			goto out;
 		case '+':
 			st->sign = 1;
